@@ -172,10 +172,13 @@ class Model:
         evs, tail = sm
         fsa = [(i, e) for i, e in enumerate(evs) if e[0] == "fsa" and isinstance(e[1], int)]
         rms = [e for e in evs if e[0] == "vecremove"]
-        if len(fsa) != 1 or not rms:
+        if len(fsa) != 1:
             return sm
         idx, fe = fsa[0]
         vec = ("R%d" % (1 + sum(1 for e in evs[:idx] if e[0] not in ("cond", "stmt"))),)
+        inline_rm = [x for x in subterms(tail) if isinstance(x, tuple) and len(x) == 4 and x[0] == "call" and x[1] == "Vec::remove" and x[2] == vec]
+        if not rms and not inline_rm:
+            return sm
         remaining = list(range(fe[1]))
         env = {}
         for e in rms:
@@ -183,16 +186,28 @@ class Model:
                 return sm
             env[e[3]] = ("call", "<Vec<Node> as ops::Index>::index", vec, ("lit", str(remaining.pop(e[2])), "usize"))
         self.resolved_removes = getattr(self, "resolved_removes", 0) + len(rms)
+        bad = []
 
         def r(x):
             if isinstance(x, tuple):
                 if x in env:
                     return env[x]
+                if len(x) == 4 and x[0] == "call" and x[1] == "Vec::remove" and x[2] == vec:
+                    # a remove written inside the result expression: operands are evaluated left to right, after the bound ones
+                    k = int(x[3][1]) if isinstance(x[3], tuple) and len(x[3]) == 3 and x[3][0] == "lit" and str(x[3][1]).isdigit() else None
+                    if k is None or not (0 <= k < len(remaining)):
+                        bad.append(x)
+                        return x
+                    self.resolved_removes += 1
+                    return ("call", "<Vec<Node> as ops::Index>::index", vec, ("lit", str(remaining.pop(k)), "usize"))
                 return tuple(r(y) for y in x)
             if isinstance(x, list):
                 return [r(y) for y in x]
             return x
-        return ([e for e in evs if e[0] != "vecremove"], r(tail))
+        new_tail = r(tail)
+        if bad:
+            return sm
+        return ([e for e in evs if e[0] != "vecremove"], new_tail)
 
     # ---- generic shape checks (return (ok, detail)) ---------------------------
     def generate_ast_shape(self):
